@@ -34,6 +34,7 @@ class FnSpec:
         self.sig_extra = []        # further ensures clauses (text, file, line), appended after sig
         self.iter_rewrites = {}    # loop ordinal -> (kind, index name, length expr)
         self.filter_partition = {} # (filter closure ordinal, partition closure ordinal) -> ([contract, hint at body start, hint at body end], file, line)  (R15)
+        self.map_collect_tail = {} # closure ordinal -> result type (tail-expression variant of R14) or None
         self.map_collect = {}      # closure ordinal -> ([contract, hint at body start, hint after push], file, line)  (R14)
 
 
@@ -265,10 +266,13 @@ class Vc:
                 # R14: `let NAME: T = RECV.iter_mut().enumerate().map(|(N, X)| { BODY }).collect();`
                 #   -> `let mut NAME: T = Vec::new(); for N in 0..RECV.len() <contract> { let X = &RECV[N]; let v__ = { BODY }; NAME.push(v__); }`
                 # the text that follows is the loop contract (invariant / decreases), optionally `---` + ghost text for the start of the body, `---` + ghost text after the push
-                m = re.match(r'(\d+)\s*$', rest)
+                # variant `map-collect K tail TYPE`: the function's tail expression `RECV.iter().map(|x| E).collect()` of type TYPE
+                #   -> `let mut v__: TYPE = Vec::new(); for k__ in 0..RECV.len() <contract> { let x = &RECV[k__]; let e__ = E; v__.push(e__); } v__`
+                m = re.match(r'(\d+)(?:\s+tail\s+(.+))?\s*$', rest)
                 if not m:
                     raise VcError("%s:%d bad map-collect directive" % (path, ln))
                 cur = ('mapcollect', int(m.group(1)), path, ln + 1)
+                fn.map_collect_tail[int(m.group(1))] = m.group(2).strip() if m.group(2) else None
             elif word == 'filter-partition':
                 # R15: `let A = RECV.iter().filter(|X| F); let (B, C): (Vec<T>, Vec<T>) = A.into_iter().partition(|_| P);`
                 #   -> `let mut B: Vec<T> = Vec::new(); let mut C: Vec<T> = Vec::new(); for k__ in 0..RECV.len() <contract> { let X = &&RECV[k__]; if F { if P { B.push(**X); } else { C.push(**X); } } }`
@@ -1043,6 +1047,30 @@ class Extractor:
             cl = body.closures[k]
             st = cl.stmt
             el = st.elems
+            tail_ty = spec.map_collect_tail.get(k)
+            if tail_ty:
+                shape = "%s: closure %d is not in the tail expression `RECV.iter().map(|x| E).collect()` (R14)" % (q, k)
+                j = len(el) - 1
+                ok = st.kind == 'tail' and j >= 9 and is_group(el[j], '(') and not el[j].children and is_tok(el[j - 1], 'collect') and is_tok(el[j - 2], '.') and is_group(el[j - 3], '(') \
+                    and is_tok(el[j - 4], 'map') and is_tok(el[j - 5], '.') and is_group(el[j - 6], '(') and not el[j - 6].children and is_tok(el[j - 7], 'iter') and is_tok(el[j - 8], '.')
+                ok = ok and el[j - 3].children and el[j - 3].children[0] is cl.bar1 and len(cl.params) == 1 and is_tok(cl.params[0], kind='ident') \
+                    and not (len(cl.body) == 1 and is_group(cl.body[0], '{')) and eend(cl.body[-1]) == eend(el[j - 3].children[-1])
+                if not ok:
+                    raise Unsupported(shape)
+                recv = src[estart(el[0]):eend(el[j - 9])]
+                x = cl.params[0].text
+                contract = parts[0]
+                h0 = parts[1] if len(parts) > 1 else ''
+                R = {'kind': 'rule', 'rule': 'R14'}
+                edits.append((st.start, st.start, 'let mut v__: %s = Vec::new();\n        for k__ in 0..%s.len()' % (tail_ty, recv), R, -3))
+                edits.append((st.start, st.start, '\n' + contract + '\n        ', origin_fn(p, ln - 1), -2))
+                edits.append((st.start, st.start, '{ let %s = &%s[k__];' % (x, recv), R, -1))
+                if h0:
+                    edits.append((st.start, st.start, '\n' + h0 + '\n', origin_fn(p, ln - 1 + len(parts[0].split('\n')) + 1), -0.5))
+                edits.append((st.start, estart(cl.body[0]), ' let e__ = ', R, -0.2))
+                edits.append((eend(cl.body[-1]), st.end, '; v__.push(e__); }\n        v__', R, 1))
+                self.rule('R14', sf.rel, sf.line_of(st.start), '%s.iter().map(|%s| ..).collect() as the tail expression of %s -> index loop pushing the closure body\'s value' % (recv, x, q))
+                continue
             shape = "%s: closure %d is not in a statement `let NAME: T = RECV.iter_mut().enumerate().map(|(n, x)| { .. }).collect();` (R14)" % (q, k)
             if not (len(el) > 8 and is_tok(el[0], 'let') and is_tok(el[1], kind='ident') and is_tok(el[2], ':')):
                 raise Unsupported(shape)
